@@ -157,65 +157,69 @@ def moveObjectDep (int : Str) (v : VT) (deps : List Dep) : VT × List Dep :=
       | _ => (v, deps)
     | none => (v, deps)
 
+/-- `Dependent.processTypInt`, what happens to the root verb and its dependents:
+    `(verb, dependents, « par » in front?, what `.a(..)` appends, prefix override)` -/
+def processIntDepCore (int : Str) (v : VT) (deps : List Dep) : Except Crash (VT × List Dep × Bool × Str × Option Str) :=
+  if intGroupMove.contains int then
+    let r := moveObjectDep int v deps
+    pure (r.1, r.2, false, [], none)
+  else if intGroupSubj.contains int then
+    match firstIdx (fun (d : Dep) => d.rel = .subj) deps with
+    | some i =>
+      -- self.terminal.setProp("n","s"); setProp("pe",3): props of the verb AND the peng it shares
+      let v' : VT := { v with n := .s, pe := 3, on := some .s, ope := some 3,
+                              cod := if v.codpid = v.pid then v.cod.map (fun c => (c.1, Nb.s)) else v.cod }
+      let deps' := (deps.eraseIdx i).map (fun d => match d.t with
+        | .v x => if x.shared then { d with t := .v { x with n := .s, pe := 3 } } else d
+        | _ => d)
+      pure (v', deps', false, [], none)
+    | none => pure (v, deps, false, [], none)
+  else if intGroupObj.contains int then
+    let a := match firstIdx (fun (d : Dep) => d.rel = .comp && d.t.isNorPro) deps with
+      | some i => deps.eraseIdx i
+      | none => deps
+    let bp : List Dep × Bool :=
+      match firstIdx (fun (d : Dep) => d.rel = .comp && (match d.t with | .pp prep _ => prep == par | .pt l => l == par | _ => false)) a with
+      | some j => (a.eraseIdx j, true)
+      | none => (a, false)
+    let r := moveObjectDep int v bp.1
+    pure (r.1, r.2, bp.2, [], none)
+  else if intGroupInd.contains int then
+    -- before commit 38d9ad6 `preposition_list()` existed on PhraseFr only (`Gen.depHasPrepositionList = false`)
+    if deps.any (fun d => (d.rel = .comp || d.rel = .mod) && d.t.isP) ∧ ¬ depHasPrepositionList then throw .attributeError
+    else
+      -- the loop looks at EVERY comp/mod dependent with a preposition and removes the first one that qualifies
+      -- (the constituent notation only looks at the first PP of the VP)
+      let qualifies (d : Dep) : Bool :=
+        (d.rel = .comp || d.rel = .mod) && (match d.t with
+          | .pp prep _ => if int = wheStr then prepsWhe.contains prep else if int = whnStr then prepsWhn.contains prep
+                          else prepsAll.contains prep
+          | .pt prep => if int = wheStr then prepsWhe.contains prep else if int = whnStr then prepsWhn.contains prep
+                        else prepsAll.contains prep
+          | _ => false)
+      let dp : List Dep × Option Str := match firstIdx qualifies deps with
+        | some i =>
+          let prep : Str := match deps[i]? with
+            | some d => (match d.t with | .pp p _ => p | .pt p => p | _ => [])
+            | none => []
+          (deps.eraseIdx i,
+           if int = wheStr ∨ int = whnStr then none else some (prep ++ [' '] ++ (if int = woiStr then qui else quoi)))
+        | none => (deps, none)
+      let r := moveObjectDep int v dp.1
+      pure (r.1, r.2, false, [], dp.2)
+  else if int = tagStr then pure (v, deps, false, tagText, none)
+  else pure (v, deps, false, [], none)
+
 /-- `Dependent.processTypInt` -/
 def processIntDep (int : Str) (v : VT) (deps : List Dep) : Except Crash (VT × List Dep × Str) := do
   let dflt ← prefixOf int
-  let (v1, deps1, ppar, endS, pfxO) : VT × List Dep × Bool × Str × Option Str ←
-    if intGroupMove.contains int then
-      let r := moveObjectDep int v deps
-      pure (r.1, r.2, false, [], none)
-    else if intGroupSubj.contains int then
-      match firstIdx (fun (d : Dep) => d.rel = .subj) deps with
-      | some i =>
-        -- self.terminal.setProp("n","s"); setProp("pe",3): props of the verb AND the peng it shares
-        let v' : VT := { v with n := .s, pe := 3, on := some .s, ope := some 3,
-                                cod := if v.codpid = v.pid then v.cod.map (fun c => (c.1, Nb.s)) else v.cod }
-        let deps' := (deps.eraseIdx i).map (fun d => match d.t with
-          | .v x => if x.shared then { d with t := .v { x with n := .s, pe := 3 } } else d
-          | _ => d)
-        pure (v', deps', false, [], none)
-      | none => pure (v, deps, false, [], none)
-    else if intGroupObj.contains int then
-      let a := match firstIdx (fun (d : Dep) => d.rel = .comp && d.t.isNorPro) deps with
-        | some i => deps.eraseIdx i
-        | none => deps
-      let (b, ppar) : List Dep × Bool :=
-        match firstIdx (fun (d : Dep) => d.rel = .comp && (match d.t with | .pp prep _ => prep == par | .pt l => l == par | _ => false)) a with
-        | some j => (a.eraseIdx j, true)
-        | none => (a, false)
-      let r := moveObjectDep int v b
-      pure (r.1, r.2, ppar, [], none)
-    else if intGroupInd.contains int then
-      -- before commit 38d9ad6 `preposition_list()` existed on PhraseFr only (`Gen.depHasPrepositionList = false`)
-      if deps.any (fun d => (d.rel = .comp || d.rel = .mod) && d.t.isP) ∧ ¬ depHasPrepositionList then throw .attributeError
-      else
-        -- the loop looks at EVERY comp/mod dependent with a preposition and removes the first one that qualifies
-        -- (the constituent notation only looks at the first PP of the VP)
-        let qualifies (d : Dep) : Bool :=
-          (d.rel = .comp || d.rel = .mod) && (match d.t with
-            | .pp prep _ => if int = wheStr then prepsWhe.contains prep else if int = whnStr then prepsWhn.contains prep
-                            else prepsAll.contains prep
-            | .pt prep => if int = wheStr then prepsWhe.contains prep else if int = whnStr then prepsWhn.contains prep
-                          else prepsAll.contains prep
-            | _ => false)
-        let (deps', pfx) : List Dep × Option Str := match firstIdx qualifies deps with
-          | some i =>
-            let prep : Str := match deps[i]? with
-              | some d => (match d.t with | .pp p _ => p | .pt p => p | _ => [])
-              | none => []
-            (deps.eraseIdx i,
-             if int = wheStr ∨ int = whnStr then none else some (prep ++ [' '] ++ (if int = woiStr then qui else quoi)))
-          | none => (deps, none)
-        let r := moveObjectDep int v deps'
-        pure (r.1, r.2, false, [], pfx)
-    else if int = tagStr then pure (v, deps, false, tagText, none)
-    else pure (v, deps, false, [], none)
-  let deps2 : List Dep := { rel := .pre, t := .q (pfxO.getD dflt) } :: deps1
-  let deps3 : List Dep := if ppar then
+  let r ← processIntDepCore int v deps
+  let deps2 : List Dep := { rel := .pre, t := .q (r.2.2.2.2.getD dflt) } :: r.2.1
+  let deps3 : List Dep := if r.2.2.1 then
       { rel := .pre, t := .pt par } ::
         (if int = wadStr then (match deps2 with | d :: r => { d with t := .q quoi } :: r | l => l) else deps2)
     else deps2
-  pure (v1, deps3, endS ++ intPunct)
+  pure (r.1, deps3, r.2.2.2.1 ++ intPunct)
 
 /-- realization of a dependent that is not the root verb -/
 def Dep.toks (refl : Bool) (d : Dep) : Except Crash (List Tok) :=
